@@ -88,7 +88,8 @@ def build_envs(tier, seed, names):
     seeds = model_seeds(seed)
     jobs = []
     for hs, clock, mode in itertools.product(hash_menu(tier, seed), ("real", "warp"), ("front", "busy")):
-        job = {"hashseed": hs, "clock": clock, "mode": mode, "models": None, "reps": 2, "seeds": seeds}
+        job = {"hashseed": hs, "clock": clock, "mode": mode, "models": None, "seeds": seeds,
+               "reps": 2 if (mode == "front" or tier == "thorough") else 1}
         if mode == "front" and clock == "real" and (tier == "thorough" or hs == BASE_HASH):
             job["mode"] = "front-fresh"
             job["fresh_seeds"] = seeds if tier == "thorough" else seeds[:1]
@@ -313,27 +314,48 @@ def main(tier, seed, only=None):
     d.states = d.outcomes = len(digests)
 
     found = analyse(table)
-    # one violation per (model, dimension); smallest seed first
-    seen = set()
-    for (model, dim, mseed, ea, repa, eb, repb) in found:
-        if (model, dim) in seen:
-            continue
-        seen.add((model, dim))
-        ja, jb = job_for(ea, jobs, model), job_for(eb, jobs, model)
-        ra, rb = confirm(model, mseed, ja, ea[1], repa, jb, eb[1], repb)
+    # one violation per (model, dimension), smallest seed first; every one is re-executed from its
+    # replay data (two fresh interpreters, full delivery log) before it is reported
+    firsts, seen = [], set()
+    for v in found:
+        if (v[0], v[1]) not in seen:
+            seen.add((v[0], v[1]))
+            firsts.append(v)
+
+    def settle(v):
+        model, dim, mseed, ea, repa, eb, repb = v
+        cands = []
+        if dim in ("hashseed", "clock"):
+            # cheapest witness first: the model alone in two newly exec'ed interpreters that differ only in ``dim``
+            solo = [{"hashseed": e[0], "clock": e[2], "mode": "solo", "models": [model], "reps": 1, "seeds": [mseed]}
+                    for e in (ea, eb)]
+            cands.append((solo[0], "exec-fresh", 0, solo[1], "exec-fresh", 0))
+        cands.append((job_for(ea, jobs, model), ea[1], repa, job_for(eb, jobs, model), eb[1], repb))
+        last = None
+        for (ja, pa, ra_, jb, pb, rb_) in cands:
+            ra, rb = confirm(model, mseed, ja, pa, ra_, jb, pb, rb_)
+            last = (ja, pa, ra_, jb, pb, rb_, ra, rb)
+            if ra is not None and rb is not None and sig(ra) != sig(rb):
+                break
+        return v, last
+
+    with ThreadPoolExecutor(max_workers=8) as ex:
+        settled = list(ex.map(settle, firsts))
+    for (model, dim, mseed, ea, repa, eb, repb), (ja, pa, ra_, jb, pb, rb_, ra, rb) in settled:
         if ra is None or rb is None:
-            detail, _ = ("could not re-run the pair", None)
-            reproduced = False
+            detail, reproduced = "could not re-run the pair", False
         else:
             detail, _ = describe_pair(model, mseed, ra, rb)
             reproduced = sig(ra) != sig(rb)
         desc = (f"model '{model}' seed={mseed}: run digest changes with the environment dimension '{dim}' "
-                f"(env A hashseed={ea[0]} prior={ea[1]} clock={ea[2]} rep={repa}; "
-                f"env B hashseed={eb[0]} prior={eb[1]} clock={eb[2]} rep={repb}); {detail}"
+                f"(first seen: env A hashseed={ea[0]} prior={ea[1]} clock={ea[2]} run#{repa}; "
+                f"env B hashseed={eb[0]} prior={eb[1]} clock={eb[2]} run#{repb}); re-executed as "
+                f"A[hashseed={ja['hashseed']} prior={pa} clock={ja['clock']} run#{ra_}] vs "
+                f"B[hashseed={jb['hashseed']} prior={pb} clock={jb['clock']} run#{rb_}]: {detail}"
                 + ("" if reproduced else " [divergence did not reproduce on the confirmation re-run]"))
         run.violation(f"{model}/{dim}", desc,
                       {"driver": "envmatrix", "model": model, "seed": mseed, "dimension": dim,
-                       "a": {"job": ja, "prior": ea[1], "rep": repa}, "b": {"job": jb, "prior": eb[1], "rep": repb}})
+                       "a": {"job": ja, "prior": pa, "rep": ra_}, "b": {"job": jb, "prior": pb, "rep": rb_}})
     seed_insensitive = sorted(m for m in names
                               if len({sig(table[(m, s)][e][0]) for s in model_seeds(seed)
                                       for e in [sorted(table.get((m, s), {}))[0]] if (m, s) in table
